@@ -791,6 +791,9 @@ def run(ctx):
     ctx.rule('C02-D5', 'error of rho: slice arithmetic of _compute_drho (bounded exhaustive, w_max <= 14)')
     ctx.guarded('C02-D5', 'obs.py:_compute_drho', compute_drho, ctx, obs)
     ctx.guarded('C02-D1', 'covobs.py:Covobs.errsq', errsq, ctx)
+    from . import C03
+    ctx.rule('C02-D6', 'effective parameters S, tau_exp, N_sigma per ensemble: argument > dictionary > global, determined per ensemble')
+    ctx.guarded('C02-D6', 'obs.py:_parse_kwarg', C03.d3_precedence, ctx, obs, 'C02-D6')
     ctx.floor('C02 obligations', len(ctx.obs), 40)
 
 
